@@ -8,6 +8,7 @@
   Tie: `harness/c01.py` (observed-oracle replay of real sampler histories + `Inv01` evaluated on the real state).
 -/
 import NautilusVerif.Lemmas.CoreInv01
+import NautilusVerif.Lemmas.NodupFastLemmas
 namespace NautilusVerif
 open Core
 
@@ -34,6 +35,9 @@ theorem C01_association (env : Env) (s : St) (h : InShells env s) (sh : Shell) (
 theorem C01_partition (s : St) (h : NoDup s) (i k : Nat) (hik : i ≠ k) (a b : Shell)
     (ha : s.shells[i]? = some a) (hb : s.shells[k]? = some b) : ∀ p ∈ a.pts, p ∉ b.pts :=
   shells_disjoint s h i k hik a b ha hb
+
+/-- the driver evaluates `NoDup` on real states with a sort-based test; it decides the same proposition -/
+theorem C01_nodupFast (l : List Nat) : nodupFast l = true ↔ l.Nodup := nodupFast_iff l
 
 /-! ### non-vacuity: two overlapping non-nested bounds, a transfer, a rejected proposal, an emptied shell -/
 namespace C01Demo
